@@ -188,8 +188,13 @@ func doSign(info *nfpm.Info, debianBinary, controlTarGz, dataTarball []byte, dat
 	switch info.Deb.Signature.Method {
 	case "dpkg-sig":
 		return dpkgSign(info, debianBinary, controlTarGz, dataTarball, dataTarballName)
-	default:
+	case "", "debsign":
 		return debSign(info, debianBinary, controlTarGz, dataTarball)
+	default:
+		// do not silently sign with another scheme than the one asked for
+		return nil, "", &nfpm.ErrSigningFailure{
+			Err: fmt.Errorf("unknown signature method %q: must be debsign or dpkg-sig", info.Deb.Signature.Method),
+		}
 	}
 }
 
